@@ -24,6 +24,8 @@ except ImportError:  # pragma: no cover
     import sre_parse
     import sre_constants as sre_c
 
+import logging
+
 from harness.common import VERIF, enc, dec, run_driver
 
 from insights.client.config import InsightsConfig
@@ -31,6 +33,8 @@ from insights.cleaner import Cleaner
 from insights.cleaner.ip import IPv4, IPv6
 from insights.cleaner.mac import Mac
 from insights.cleaner import password as password_mod
+
+logging.getLogger("insights").addHandler(logging.NullHandler())      # the cleaner logs what it is about to raise
 
 # --------------------------------------------------------------------------- regex translation
 
@@ -174,7 +178,7 @@ def init_line(cfg):
 
 
 def clean_line(call):
-    return "clean\t%s\t%d\t%s%s" % (enc_l(call["no_obfuscate"]), call["no_redact"], enc_allow(call["allowlist"]),
+    return ("cleanw" if call.get("width") else "clean") + "\t%s\t%d\t%s%s" % (enc_l(call["no_obfuscate"]), call["no_redact"], enc_allow(call["allowlist"]),
                                    "".join("\t" + enc(l) for l in call["lines"]))
 
 
@@ -231,19 +235,25 @@ def model_mappings(ans):
 
 def model_out(ans):
     fs = ans.split("\t")
+    if ans == "raised":
+        return [RAISED]
     if fs[0] != "ok":
         return ["<%s>" % ans]
     return [dec(x) for x in fs[1:]]
 
 
+RAISED = "<raised>"      # clean_content raised: the spec is not emitted
+
+
 def do_call(cl, call):
-    """the implementation's answer, exceptions mapped to a marker"""
+    """the implementation's answer; an exception = the outcome "spec not emitted" """
     try:
+        kw = {"width": True} if call.get("width") else {}
         return cl.clean_content(list(call["lines"]), no_obfuscate=list(call["no_obfuscate"]),
                                 no_redact=bool(call["no_redact"]),
-                                allowlist=None if call["allowlist"] is None else dict(call["allowlist"]))
-    except Exception as e:  # the implementation wraps its own failures in Exception
-        return ["<exception %s>" % type(e).__name__]
+                                allowlist=None if call["allowlist"] is None else dict(call["allowlist"]), **kw)
+    except Exception:  # the implementation wraps its own failures in Exception
+        return [RAISED]
 
 
 # --------------------------------------------------------------------------- generator
@@ -305,7 +315,7 @@ class Gen(object):
             return r.choice(LABELS) + "." + r.choice(["corp.net", "lab.io"])
         k = r.random()
         if k < 0.2:
-            return self.fqdn
+            return self.fqdn if r.random() < 0.7 else self.variant("host", self.fqdn)
         lab = r.choice(LABELS)
         if k < 0.3:
             lab = lab + "." + r.choice(LABELS)
@@ -329,13 +339,84 @@ class Gen(object):
         return r.choice(["abcd::1", "fe80::5054:ff:fe12:3456", "2001:db8:0:0:1:2:3:4", "::1", "2001:0db8::0001/64",
                          "FE80::1", "ab:cd::%x" % r.randrange(0x10000), "1:2:3:4:5:6:7:%x" % r.randrange(0x100)])
 
+    def variant(self, kind, v):
+        """another SPELLING of a pool item: letter case, separator, leading zeros — a different original string"""
+        r = self.rng
+        if kind == "host":
+            dom = self.domain if self.domain and v.endswith("." + self.domain) else None
+            lab = v[:-len(dom) - 1] if dom else v
+            k = r.randrange(6)
+            if k == 0:
+                lab = lab.upper()
+            elif k == 1:
+                lab = lab.lower()
+            elif k == 2:
+                lab = lab[:1].upper() + lab[1:]
+            elif k == 3:
+                return v.upper()
+            elif k == 4 and dom:
+                dom = dom.title()
+            elif dom:
+                dom = dom[:1].upper() + dom[1:]
+            return lab + "." + dom if dom else lab
+        if kind == "mac":
+            return r.choice([v.upper(), v.lower(), v.replace(":", "-"), v.replace("-", ":"), v.upper().replace(":", "-")])
+        if kind == "ip6":
+            k = r.randrange(3)
+            if k == 0:
+                return v.upper()
+            if k == 1:
+                return v.lower()
+            return re.sub(r"(^|:)([0-9a-fA-F]{1,3})(?=:|$)", lambda m: m.group(1) + "0" + m.group(2), v, count=1)
+        return v
+
     def original(self, kind):
         p = self.pool[kind]
         if p and self.rng.random() < self.bias:
-            return self.rng.choice(p)
+            v = self.rng.choice(p)
+            if self.rng.random() < 0.25:
+                v = self.variant(kind, v)
+                if v not in p:
+                    p.append(v)
+            return v
         v = getattr(self, kind)()
         p.append(v)
         return v
+
+    def width_line(self):
+        """a netstat -neopa like line: addresses at line start / end / next to padding of every length"""
+        r = self.rng
+
+        def addr():
+            k = r.random()
+            if k < 0.3:
+                a = r.choice(["1.2.3.4", "9.9.9.9", "8.8.4.4", "1.1.1.%d" % r.randrange(1, 9)])          # shorter than a substitute
+            elif k < 0.5:
+                a = r.choice(["10.123.123.1", "172.16.200.1", "192.168.0.%d" % r.randrange(10, 99)])  # 12-13: equal
+            elif k < 0.8:
+                a = "192.168.%d.%d" % (r.randrange(100, 256), r.randrange(100, 256))                  # longer
+            else:
+                a = self.original("ip")
+            if a not in self.pool["ip"]:
+                self.pool["ip"].append(a)
+            if self.pool["ip"] and r.random() < 0.3:
+                a = r.choice(self.pool["ip"])
+            return a + r.choice(["", ":22", ":8080", ":*", ":5432"])
+        pads = [0, 1, 1, 2, 3, 6, 12, 20]
+        parts = []
+        if r.random() < 0.8:
+            parts.append(r.choice(["tcp", "tcp6", "udp"]) + " " * r.choice([1, 4, 8]) + "0" + " " * r.choice([1, 6]) + "0 ")
+        parts.append(addr() + " " * r.choice(pads))
+        if r.random() < 0.8:
+            parts.append(addr() + " " * r.choice(pads))
+        if r.random() < 0.6:
+            parts.append(r.choice(["ESTABLISHED", "LISTEN", "TIME_WAIT"]) + " " * r.choice(pads) + r.choice(["", "0", "1234/sshd", "-"]))
+        elif r.random() < 0.3:
+            parts.append(addr())
+        text = "".join(parts)
+        if r.random() < 0.5:
+            text = text.rstrip(" ")
+        return text, [("junk", text)]
 
     def junk(self):
         r = self.rng
@@ -401,15 +482,17 @@ def gen_history(rng, tier):
     g = Gen(rng, fqdn, prone=prone)
     ncalls = rng.choice([1, 2, 3, 4, 6, 8, 12] if tier == "quick" else [1, 2, 4, 8, 12, 20, 30])
     calls = []
+    widthy = rng.random() < 0.4
     for _ in range(ncalls):
         nl = rng.choice([0, 1, 1, 2, 3, 4, 6])
+        width = 1 if widthy and rng.random() < 0.5 else 0
         lines, toks = [], []
         for _ in range(nl):
             if rng.random() < 0.06:
                 lines.append("")
                 toks.append([])
             else:
-                t, tk = g.line()
+                t, tk = g.width_line() if width and rng.random() < 0.85 else g.line()
                 lines.append(t)
                 toks.append(tk)
         no = []
@@ -419,7 +502,7 @@ def gen_history(rng, tier):
         if rng.random() < 0.12:
             al = dict((w, rng.choice([1, 2, 5])) for w in rng.sample(WORDS + ["1", "."], rng.randrange(0, 3)))
         calls.append({"lines": lines, "tokens": toks, "no_obfuscate": no, "no_redact": 1 if rng.random() < 0.2 else 0,
-                      "allowlist": al})
+                      "allowlist": al, "width": width})
     return {"cfg": cfg, "calls": calls, "prone": prone}
 
 
@@ -473,6 +556,33 @@ def scan_inputs(cfg, line, seen):
             seen["host"].add(h.lstrip(".-"))
 
 
+_TOK = re.compile(r"(?<![^\s,;=\[\]()\"/])([0-9]{1,3}(?:\.[0-9]{1,3}){3})(?![^\s,;=\[\]()\"/:])")
+
+
+def addr_tokens(line):
+    """canonical dotted quads that stand as a token of their own (optionally followed by :port) — our own scanner"""
+    return [t for t in _TOK.findall(line) if canonical_ip(t)]
+
+
+def width_ok(line):
+    """lines the width-preserving substitution is made for: every address once, followed (after its port) by a blank
+    and by enough blanks to absorb a longer substitute; everything else is the listed finding width-mode-garble"""
+    quads = re.findall(r"[0-9]{1,3}(?:\.[0-9]{1,3}){3}", line)
+    toks = addr_tokens(line)
+    if sorted(quads) != sorted(toks) or len(set(toks)) != len(toks):
+        return False
+    for t in toks:
+        if t == "127.0.0.1":
+            continue
+        rest = line[line.index(t) + len(t):]
+        m = re.match(r"(:[0-9*]+)?( *)", rest)
+        tail = rest[m.end():]
+        need = max(0, 15 - len(t)) + 1
+        if tail != "" and len(m.group(2)) < need:
+            return False
+    return True
+
+
 def classify(cfg, kind, seen, maps):
     """which listed finding (if any) the INPUT of this history is an instance of, for a failure about `kind`.
     All are one mechanism: the text of an original (or the short host name) occurs inside another original or
@@ -507,12 +617,17 @@ class Oracle(object):
         self.inputs = []
         self.seen = {"ip": set(), "mac": set(), "host": set()}
         self.pending = []        # (call index, line index, field index, kind, original, shown)
+        self.emitted = []        # (call index, call, output) of every call that returned
+        self.not_emitted = 0
+        self.garbled = None
 
     def after_call(self, idx, call, out, maps, fail):
         cfg = self.cfg
         self.inputs += call["lines"]
         for l in call["lines"]:
             scan_inputs(cfg, l, self.seen)
+        if call.get("width") and not all(width_ok(l) for l in call["lines"]):
+            self.garbled = "width-mode-garble"
         issued = maps
         for k in ("ip", "hostname", "mac", "ipv6"):
             cur = maps[k]
@@ -528,7 +643,8 @@ class Oracle(object):
                     fail("%s: two originals share a substitute: %r" % (k, cur), k, issued)
             for o, s in cur[len(self.prev[k]):]:
                 if not (k == "hostname" and o == cfg["fqdn"]) and not any(o in l for l in self.inputs):
-                    fail("%s mapping lists %r which occurs in no processed line" % (k, o), k, issued)
+                    # (width-mode garbling joins pieces of a line into text that was never there)
+                    fail("%s mapping lists %r which occurs in no processed line" % (k, o), k, issued, self.garbled)
             self.prev[k] = list(cur)
         kprev = dict(self.prev["keyword"])
         for o, s in maps["keyword"]:
@@ -537,8 +653,13 @@ class Oracle(object):
             if not any(o in l for l in self.inputs) and not any(o in x for k in KINDS for _, x in maps[k]):
                 fail("keyword mapping lists %r which occurs nowhere" % o, "keyword", issued)
         self.prev["keyword"] = list(maps["keyword"])
+        # a call that raised = the spec is not emitted: nothing of it can leak, nothing to check in its output
+        if out == [RAISED]:
+            self.not_emitted += 1
+            return
+        self.emitted.append((idx, call, out))
         # what the outputs show: only when every line survived and splits into the same fields
-        if len(out) != len(call["lines"]):
+        if len(out) != len(call["lines"]) or call.get("width"):
             return
         stage_on = {
             "ip": cfg["obfuscate"] and "ip" not in call["no_obfuscate"],
@@ -588,6 +709,42 @@ class Oracle(object):
                 fail("%s %r (call %d line %d) is shown as %r but the mapping says %r" % (kind, a, idx, li, b, want), kind, issued)
             if shown.setdefault((kind, a), b) != b:
                 fail("%s %r is shown as %r and as %r" % (kind, a, shown[(kind, a)], b), kind, issued)
+        # different spellings of one MAC (case, separator) are different originals: where the documented scheme
+        # (sha1 of each lower-cased pair, same case and separator) gives them different substitutes they must not share one
+        macs = maps["mac"]
+        for x in range(len(macs)):
+            for y in range(x + 1, len(macs)):
+                (o1, s1), (o2, s2) = macs[x], macs[y]
+                if re.sub(r"[:-]", "", o1).lower() == re.sub(r"[:-]", "", o2).lower() and s1 == s2 and mac_obf(o1) != mac_obf(o2):
+                    fail("mac spellings %r and %r share the substitute %r" % (o1, o2, s1), "mac", issued)
+        # GLOBAL over the emitted specs (IPv4): no emitted line carries, as an address token, an original that the mapping
+        # says was replaced; and as many substitutes come out as occurrences went in
+        cfg = self.cfg
+        ipmap = dict(maps["ip"])
+        subs = set(ipmap.values())
+        for idx, call, out in self.emitted:
+            if not (cfg["obfuscate"] and "ip" not in call["no_obfuscate"]):
+                continue
+            garble = "width-mode-garble" if call.get("width") and not all(width_ok(l) for l in call["lines"]) else None
+            for line in out:
+                for t in addr_tokens(line):
+                    if t in ipmap and t not in subs and t != "127.0.0.1":
+                        fail("call %d%s was emitted with the raw original %r which the mapping pairs with %r: %r" % (
+                            idx, " (width mode)" if call.get("width") else "", t, ipmap[t], line), "ip", issued)
+            if len(out) != len(call["lines"]):
+                continue
+            if "password" not in call["no_obfuscate"] and any("password" in l for l in call["lines"]):
+                continue
+            for li, lo in zip(call["lines"], out):
+                tin, tout = addr_tokens(li), addr_tokens(lo)
+                for o in set(tin):
+                    if o in ipmap and o != "127.0.0.1":
+                        sub = ipmap[o]
+                        want = tin.count(o) + tin.count(sub) - (tin.count(o) if o == sub else 0)
+                        if tout.count(sub) != want:
+                            fail("call %d%s: %d occurrence(s) of %r went in, %d of its substitute %r came out: %r -> %r" % (
+                                idx, " (width mode)" if call.get("width") else "", tin.count(o), o, tout.count(sub), sub, li, lo),
+                                "ip", issued, garble)
 
 
 # --------------------------------------------------------------------------- run one history
@@ -601,8 +758,8 @@ def run_history(h, tmp, want_reports=False):
     orc = Oracle(cfg)
     fails = []
 
-    def fail(desc, kind, maps_now):
-        fails.append((desc, classify(cfg, kind, orc.seen, maps_now) if isinstance(maps_now, dict) else None))
+    def fail(desc, kind, maps_now, finding=None):
+        fails.append((desc, finding or (classify(cfg, kind, orc.seen, maps_now) if isinstance(maps_now, dict) else None)))
     outs, maps = [], []
     for i, call in enumerate(h["calls"]):
         o = do_call(cl, call)
@@ -732,6 +889,10 @@ def run(chk):
                 "IPv4 / host names of the system's domain / MAC / IPv6 originals re-drawn from a per-history pool with probability 0.5 "
                 "(same line, later lines, later calls), 30% of the IPv4 originals inside the substitute range 10.230.230.1+, MACs that "
                 "equal issued substitutes, host names that look like substitutes, junk tokens (port suffixes, glued text, non-ASCII); "
+                "25% of the pool draws are another SPELLING of a pool item (letter case of label / domain / whole name incl. the "
+                "system's own, MAC case and separator, IPv6 case and leading zeros); 40% of the histories mix in width=True calls on "
+                "netstat-like lines (addresses at line start / end / before 0-20 blanks, shorter / equal / longer than the substitute, "
+                "repeated), a raising call = spec not emitted; "
                 "every combination of the obfuscation switches, no_obfuscate, no_redact, allow lists, plain exclusion patterns; "
                 "non-trivial = some obfuscator issued a substitute and the history was not seen before")
     chk.assumptions = [
@@ -742,8 +903,8 @@ def run(chk):
         "substitute name does not start with 'host' (12 hex digits)",
         "socket.inet_aton/inet_ntoa on canonical dotted quads = ip2int/int2ip of the model (tied by the correspondence); "
         "issued addresses stay below 2^32 (theorem ip_keys_range gives the exact bound)",
-        "IPv4 width-preserving mode (width=True, netstat -neopa), regex-mode exclusion patterns, lines longer than 1 MiB and "
-        "characters whose str.lower()/upper() is not ASCII-trivial are outside the model",
+        "regex-mode exclusion patterns, lines longer than 1 MiB and characters whose str.lower()/upper() is not ASCII-trivial "
+        "are outside the model; a clean_content call that raises (width mode) = the spec is not emitted",
     ]
     chk.lean()
     try:
